@@ -204,4 +204,18 @@ def start (c : Cfg) (disk : Store) (daStart : Nat := 0) : Except StartErr (Node 
            ws1 ++ ws2 ++ wh ++ wd)
     | _, _ => .error .badWatermark
 
+/-- `publishBlockInternal` for **any** signer.  `SignedHeader.ValidateBasic` also demands
+`Signer.Address = KeyAddress(Signer.PubKey)` (since /repo e753a34).  Every block this node builds or re-signs carries
+`Signer{PubKey: node key, Address: genesis proposer address}` (`getInitialState`, `execCreateBlock`), and
+`KeyAddress(node key) = c.signerAddr`: for such a block the demand is `c.signerAddr = c.proposerAddr`.  With the
+genesis proposer's own key (`signerAddr = proposerAddr`, the only case `execCreateBlock` lets through) this is
+`publish`.  With a foreign key the only step `publish` would let succeed is the one that re-uses a block this node
+itself signed — the genesis block it saved at start-up — and the real validation rejects it ("invalid header"):
+nothing is written, the node stays as it is. -/
+def publishB (c : Cfg) (n : Node) (resp : SeqResp) (ex : ExecResp) : Node × List SW × Outcome :=
+  if c.signerAddr = c.proposerAddr then publish c n resp ex
+  else match publish c n resp ex with
+    | (_, _, .ok) => (n, [], .errValidate .addrMismatch)
+    | r => r
+
 end Producer
